@@ -6,6 +6,7 @@
 package main
 
 import (
+	"io"
 	"bytes"
 	"crypto/sha256"
 	"encoding/hex"
@@ -130,7 +131,20 @@ func (w *world) put(i int, viaBytes bool) {
 			err = w.c.PutBytes(w.ids[i], p)
 			out, size = h, int64(len(p))
 		} else {
-			out, size, err = w.c.Put(w.ids[i], bytes.NewReader(p))
+			// the reader is handed over wherever its previous user left it: fresh, at the end
+			// (a file just written), or somewhere inside (a header was peeked) - Put stores all of it
+			rd := bytes.NewReader(p)
+			switch w.rng.Intn(4) {
+			case 0:
+				rd.Seek(0, io.SeekEnd)
+				run.Count("puts_with_reader_at_eof", 1)
+			case 1:
+				if len(p) > 0 {
+					rd.Seek(int64(w.rng.Intn(len(p)+1)), io.SeekStart)
+					run.Count("puts_with_reader_partly_read", 1)
+				}
+			}
+			out, size, err = w.c.Put(w.ids[i], rd)
 		}
 	})
 	w.files[w.idxPath(i)] = true
